@@ -186,7 +186,15 @@ def run(tier, replay=None):
         nruns = runs(chk, tier, exe, d)
         # the image the instructions are fetched from is the file's image: hexsim's loader against BinFormat!Loaded
         import binlib
-        nload = binlib.loader_conformance(chk, d)
+        # ... and one file larger than 200000 BYTES whose last words are not zero (the memory has 200000 WORDS: a loader that mixes the two
+        # units up drops them)
+        import struct
+        nbig = 50010
+        body = bytearray(4 * nbig)
+        for k in range(49990, nbig):
+            struct.pack_into('<I', body, 4 * k, 0x01020304 + k)
+        struct.pack_into('<I', body, 0, 0x90)
+        nload = binlib.loader_conformance(chk, d, extra_files=[struct.pack('<I', nbig) + bytes(body) + struct.pack('<II', 0, 0)])
         # the longest program at hand: the X compiler written in X (tests/x/xhexb.x, compiled by xcmp) compiling a source on hexsim -
         # millions of instructions, cut into segments that sixteen TLC processes judge against HexISA independently
         import seglib, corpus
